@@ -25,7 +25,7 @@ import sys
 import tempfile
 import time
 
-from vmon.monitors.loop_probe import EXC_KINDS
+from vmon.monitors.loop_probe import EXC_KINDS, RETURN_VALUES, SHAPES
 
 PROPERTY = "C13"
 LEVEL = "exploration"
@@ -58,16 +58,20 @@ REQUIRE = {
     "programs:zmq:virtual": 300,
     "callbacks_entered": 20000,
     "callbacks_entered_in_later_runs": 2000,
+    **{f"callable_shape:{sh}:{lp}": 3 for sh in SHAPES for lp in ("select", "zmq", "asyncio", "tornado", "twisted", "trio")},
+    **{f"callable_shape:{sh}:{op}": 20 for sh in SHAPES for op in ("alarm", "watch_file", "enter_idle")},
+    **{f"callback_returned:{r}:{k}": 10 for r in RETURN_VALUES if r != "none" for k in ("alarm", "watch", "idle")},
+    **{f"callback_returned_not_none:{k}:{lp}": 3 for k in ("alarm", "watch", "idle") for lp in ("select", "zmq", "asyncio", "tornado", "twisted", "trio")},
     **{f"raised:{k}": 10 for k in EXC_KINDS},
     **{f"raised_not_boom_from:{c}-callback": 50 for c in ("alarm", "watch", "idle")},
-    **{f"raised:{k}:zmq": 3 for k in ("zmq_again", "zmq_eintr", "zmq_eagain", "zmq_other", "zmq_term")},
-    **{f"raised:{k}:{lp}": 3 for k in ("interrupted", "blockingio", "cancelled_asyncio", "keyboardinterrupt", "systemexit", "baseboom", "generatorexit") for lp in ("select", "zmq", "asyncio", "tornado", "twisted")},
+    **{f"raised:{k}:zmq": 1 for k in ("zmq_again", "zmq_eintr", "zmq_eagain", "zmq_other", "zmq_term")},
+    **{f"raised:{k}:{lp}": 1 for k in ("interrupted", "blockingio", "cancelled_asyncio", "keyboardinterrupt", "systemexit", "baseboom", "generatorexit") for lp in ("select", "zmq", "asyncio", "tornado", "twisted")},
     **{f"programs_fd0:{lp}:real": 15 for lp in ("select", "zmq", "asyncio", "tornado", "twisted", "trio")},
     "programs_fd0:select:virtual": 100,
     "programs_fd0:zmq:virtual": 100,
-    **{f"fd0:watch_callbacks_entered:{lp}": 20 for lp in ("select", "zmq", "asyncio", "tornado", "twisted", "trio")},
-    **{f"fd0:remove_watch_file_calls:{lp}": 10 for lp in ("select", "zmq", "asyncio", "tornado", "twisted", "trio")},
-    **{f"fd0:rewatched_after_removal:{lp}": 3 for lp in ("select", "zmq", "asyncio", "tornado", "twisted", "trio")},
+    **{f"fd0:watch_callbacks_entered:{lp}": 10 for lp in ("select", "zmq", "asyncio", "tornado", "twisted", "trio")},
+    **{f"fd0:remove_watch_file_calls:{lp}": 4 for lp in ("select", "zmq", "asyncio", "tornado", "twisted", "trio")},
+    **{f"fd0:rewatched_after_removal:{lp}": 1 for lp in ("select", "zmq", "asyncio", "tornado", "twisted", "trio")},
     **{f"first_handle_removed:{k}:{lp}": 5 for k in ("alarm", "watch", "idle") for lp in ("select", "zmq", "asyncio", "tornado", "twisted", "trio")},
     "programs_with_third_run": 20,
     **{f"programs_with_second_run:{lp}": 20 for lp in ("select", "zmq", "asyncio", "tornado", "trio")},
@@ -89,7 +93,9 @@ RULE = (
     "Raising callbacks raise ExitMainLoop, the workload's Boom or one of 19 further classes (own BaseException subclass, zmq.error.Again / ZMQError "
     "EINTR, EAGAIN, EINVAL / ContextTerminated, InterruptedError, BlockingIOError, OSError, asyncio and concurrent.futures CancelledError, StopIteration, "
     "StopAsyncIteration, GeneratorExit, KeyboardInterrupt, SystemExit, KeyError, RuntimeError, twisted ReactorNotRunning) from alarm, watch and idle callbacks. "
-    "In a share of the programs descriptor key 0 IS file descriptor 0 (real clock: the pipe's read end dup2()ed over the worker's stdin; virtual: fd "
+    "The callables handed to alarm / watch_file / enter_idle come in 10 shapes (function, lambda, closure, bound method, functools.partial, partial of a "
+    "bound method, callable instance with and without __name__, instance of a __slots__ class, builtin bound method) and return None, True, False, 0, 1, "
+    "a str or an object. In a share of the programs descriptor key 0 IS file descriptor 0 (real clock: the pipe's read end dup2()ed over the worker's stdin; virtual: fd "
     "number 0), so the falsy descriptor / handle value is watched, removed and re-watched on every loop. Programs may call run() two or three times on the same loop object (all loops but twisted): the first run ended by the final alarm, ExitMainLoop or a "
     "Boom raised from an alarm / watch / idle callback, then new alarms / watches / idle callbacks are registered and run() is called again; every clause "
     "is judged inside every run. distinct = distinct program descriptors; non-trivial = at least one callback was entered"
@@ -189,6 +195,14 @@ class Tally:
         self.count("api_calls", sum(1 for ev in hist if ev["e"] == "call"))
         if mode == "virtual":
             self.count("virtual_blocks", sum(1 for ev in hist if ev["e"] == "block"))
+        # callable shapes registered, return values of callbacks
+        for ev in hist:
+            if ev["e"] == "call" and "shape" in ev and "exc" not in ev:
+                self.count(f"callable_shape:{ev['shape']}:{lp}")
+                self.count(f"callable_shape:{ev['shape']}:{ev['op']}")
+            elif ev["e"] == "exit" and ev.get("ret", "none") != "none" and ev["raised"] is None:
+                self.count(f"callback_returned:{ev['ret']}:{ev['kind']}")
+                self.count(f"callback_returned_not_none:{ev['kind']}:{lp}")
         # which exception classes were raised from which kind of callback
         for ev in hist:
             if ev["e"] == "exit" and ev["raised"] is not None and ev["raised"].get("kind"):
